@@ -899,3 +899,106 @@ def drv_round(doc, args, inst):
 
 
 DRIVERS.update({'round': drv_round})
+
+
+def drv_dmrg_frame(doc, args, inst):
+    msgs = []
+    A = build(inst, args['A'], 3)
+    x = build(inst, args['x'], 4)
+    g = build(inst, args['g'], 5) if args.get('g') else None
+    sa, sx, sg = snapshot(A), snapshot(x), snapshot(g) if g is not None else None
+    try:
+        if args['which'] == 'fast_matvec':
+            y = A.fast_matvec(x, initial=g, nswp=int(args.get('nswp', 2)))
+        else:
+            y = torchtt.dmrg_hadamard(A, x, z0=g, nswp=int(args.get('nswp', 2)))
+    except Exception as e:
+        return ['%s raises %s: %s for %s, %s' % (args['which'], type(e).__name__, str(e)[:120], descr(A), descr(x))]
+    for name, o, s in (('first operand', A, sa), ('second operand', x, sx), ('initial guess', g, sg)):
+        if o is not None and not unchanged(o, s):
+            msgs.append('%s was modified (%s)' % (name, descr(o)))
+    we = wf_errors(y)
+    if we:
+        msgs.append('result not well formed: %s' % we)
+    return msgs
+
+
+DRIVERS.update({'dmrg_frame': drv_dmrg_frame})
+
+
+def drv_grad_op(doc, args, inst):
+    """autograd of TT expression vs dense autograd on the same leaves"""
+    import torchtt as tt
+    op, who = args['op'], args.get('who', 'both')
+    msgs = []
+    tn.manual_seed(0)
+    d = 2
+    N = [3, 4][:d]
+    mk = lambda: tt.random(N, [1, 2, 1], dtype=tn.float64)
+    x, y = mk(), mk()
+    A = tt.random([(2, 3), (3, 4)], [1, 2, 1], dtype=tn.float64)
+    sel = {'first': [x], 'second': [y], 'both': [x, y]}[who]
+    for o in sel:
+        for c in o.cores:
+            c.requires_grad_(True)
+
+    def dense(t):
+        f = t.cores[0][0]
+        for c in t.cores[1:]:
+            f = tn.tensordot(f, c, dims=([-1], [0]))
+        return f[..., 0]
+    fx, fy = dense(x), dense(y)
+    try:
+        if op == 'tensor_scalar_mul':
+            F = (x * tt.dot(x, y)).sum()
+            Fd = (fx * (fx * fy).sum()).sum()
+        elif op == 'tensor_scalar_add':
+            F = (x + tt.dot(x, y)).sum()
+            Fd = (fx + (fx * fy).sum()).sum()
+        elif op == 'scalar_div':
+            F = ((x / 2.5) * x).sum()
+            Fd = ((fx / 2.5) * fx).sum()
+        elif op == 'mul':
+            F = (x * y).sum(); Fd = (fx * fy).sum()
+        elif op == 'norm':
+            F = x.norm(); Fd = tn.linalg.norm(fx)
+        elif op == 'norm_sq':
+            F = x.norm(True); Fd = (fx * fx).sum()
+        elif op == 'sum_all':
+            F = x.sum() * x.sum(); Fd = fx.sum() * fx.sum()
+        else:
+            F = (x * x + y).sum(); Fd = (fx * fx + fy).sum()
+    except Exception as e:
+        return ['expression raises %s: %s' % (type(e).__name__, str(e)[:160])]
+    leaves = [c for o in sel for c in o.cores]
+    g1 = tn.autograd.grad(F, leaves, retain_graph=True, allow_unused=True)
+    g2 = tn.autograd.grad(Fd, leaves, allow_unused=True)
+    for k, (a, b) in enumerate(zip(g1, g2)):
+        if (a is None) != (b is None):
+            msgs.append('leaf %d: gradient %s for the TT expression, %s for the dense one' % (k, 'missing' if a is None else 'present', 'missing' if b is None else 'present'))
+        elif a is not None and not relerr(a, b) < 1e-8:
+            msgs.append('leaf %d: TT gradient differs from the dense gradient (rel.err %.2e) for op %s' % (k, relerr(a, b), op))
+    return msgs[:3]
+
+
+def drv_grad_api(doc, args, inst):
+    import torchtt as tt
+    case = args['case']
+    x = tt.random([2, 3, 4], [1, 2, 2, 1], dtype=tn.float64)
+    msgs = []
+    if case in ('grad_indices', 'grad_indices_permuted', 'grad_all'):
+        tt.grad.watch(x)
+        v = (x * x).sum()
+        idx = {'grad_indices': [0, 2], 'grad_indices_permuted': [2, 0], 'grad_all': None}[case]
+        g = tt.grad.grad(v, x, idx)
+        ref = [x.cores[k].grad for k in (idx if idx is not None else range(3))]
+        if len(g) != len(ref) or any(a is None or a.shape != b.shape or not tn.equal(a, b) for a, b in zip(g, ref)):
+            msgs.append('grad(val, x, %s) does not return the gradients of the requested cores in the requested order' % idx)
+    elif case == 'watch_some':
+        tt.grad.watch(x, [2, 0])
+        if [c.requires_grad for c in x.cores] != [True, False, True]:
+            msgs.append('watch(x,[2,0]) flags %s' % [c.requires_grad for c in x.cores])
+    return msgs
+
+
+DRIVERS.update({'grad_op': drv_grad_op, 'grad_api': drv_grad_api})
